@@ -353,7 +353,7 @@ pub fn run(args: &Args, report: &mut Report) {
 
     // ---- oracle on the real reformat_range
     let mut docs: Vec<String> = corpus();
-    let n_docs = if args.thorough() { 1500 } else { 120 };
+    let n_docs = if args.thorough() { 900 } else { 120 };
     for i in 0..n_docs {
         let mut g = Gen::new(&mut rng);
         g.docs = i % 3 != 0;
